@@ -159,6 +159,16 @@ def check(case, mon):
         params["partition_arguments"] = {"num_subproblems": int(case["parts"])}
     data = pp.initialize_data({}, KW, params)
     discr = pp.Biot(KW)
+    if case.get("decoy", (nc * 7 + nf) % 3 == 0):
+        # the same Biot object first discretizes a stretched copy of the grid (same entity
+        # counts, other cell volumes): nothing geometric may be remembered by the object
+        g0 = gg.build(r)
+        g0.nodes = g0.nodes * np.array([[1.7], [0.6], [1.3]])
+        g0.compute_geometry()
+        bf0 = mech.boundary_faces(g0)
+        p0_ = dict(params, bc=pp.BoundaryConditionVectorial(g0, bf0, ["dir"] * bf0.size))
+        discr.discretize(g0, pp.initialize_data({}, KW, p0_))
+        mon.count("discretization_object_reused_after_a_stretched_copy")
     discr.discretize(g, data)
     M = data[pp.DISCRETIZATION_MATRICES][KW]
     DD = M[discr.displacement_divergence_matrix_key]
